@@ -27,6 +27,9 @@ pub mod ext {
     pub broadcast proof fn axiom_fd_raw_ref<F>(f: &F)
         ensures #[trigger] fd_raw::<&F>(&f) == fd_raw::<F>(f),
     {}
+    /// ASSUMED: BorrowedFd::borrow_raw(fd) designates the descriptor fd
+    pub assume_specification<'a> [std::os::fd::BorrowedFd::<'a>::borrow_raw] (fd: std::os::fd::RawFd) -> (r: std::os::fd::BorrowedFd<'a>)
+        ensures fd_raw(&r) == fd as int;
     #[verifier::external_trait_specification]
     pub trait ExAsFd {
         type ExternalTraitSpecificationFor: std::os::fd::AsFd;
